@@ -8,6 +8,7 @@ UuidDef   == [i \in 1..16 |-> 15 * i + 1]
 MtsDef    == << 126, 5 >>
 ScriptAll == << "set", "geteid", "uuid", "types", "vendor" >>
 ScriptShort == << "set", "geteid", "vendor" >>
+ScriptReassign == << "set", "geteid", "set2", "geteid" >>
 (* single-bit flips at both ends of a byte, a full-byte burst, a burst straddling two bytes *)
 BurstsDef == { << 128, 0 >>, << 1, 0 >>, << 255, 0 >>, << 255, 4 >>, << 129, 3 >> }
 BurstsOne == { << 16, 0 >> }
